@@ -662,8 +662,10 @@ def run_scenario(sc, timeout=20.0):
             H._undo_close = lambda: setattr(B.RunBundler, "close_run", orig_close)
             ok = guarded(lambda: RE(top()), "call")
             decisions = list(sc.get("decisions", []))
-            while ok and str(RE.state) == "paused":
-                d = decisions.pop(0) if decisions else "resume"
+            rounds = 0
+            while ok and str(RE.state) == "paused" and rounds < 12:
+                rounds += 1
+                d = decisions.pop(0) if decisions else ("resume" if rounds < 8 else "halt")
                 ok = guarded(getattr(RE, d), d)
             H.final_state = str(RE.state)
             H.subs_left = {n: len(d.subs) for n, d in H.devs.items() if isinstance(d, Sig)}
